@@ -40,7 +40,7 @@ func generateNumericRule(num profile.NumericRule, rule string, op string, iriExp
 		}
 
 		if errF == nil {
-			rego = append(rego, fmt.Sprintf("%s %s %f", valueVariable, op, f))
+			rego = append(rego, fmt.Sprintf("%s %s %s", valueVariable, op, misc.RegoFloat(f)))
 		}
 
 	} else {
@@ -51,7 +51,7 @@ func generateNumericRule(num profile.NumericRule, rule string, op string, iriExp
 		}
 
 		if errF == nil {
-			rego = append(rego, fmt.Sprintf("not %s %s %f", valueVariable, op, f))
+			rego = append(rego, fmt.Sprintf("not %s %s %s", valueVariable, op, misc.RegoFloat(f)))
 		}
 	}
 
